@@ -433,8 +433,10 @@ def c12_raising(tier, rnd):
             # every third program: the statement expressions contain characters that are written as entities
             # in an attribute value (1 < 2, 1 & 3)
             ent = (n % 3 == 2)
-            if ent:
-                w = "ltcond" if n % 2 else "ampand"
+            # every third program: expressions that span two lines or contain runs of blanks
+            ws = (n % 3 == 1)
+            if ent or ws:
+                w = ("ltcond" if n % 2 else "ampand") if ent else ("nlparen" if n % 2 else "dsp")
                 for d in el["def"]:
                     d["e"] = wrap(w, d["e"])
                 for key in ("cond", "cs"):
@@ -453,7 +455,7 @@ def c12_raising(tier, rnd):
             items.append(Text("post", al.call("content", [S("a")])))
             for k in al.dom:
                 al.dom[k] = al.dom[k] + [EXC(c)]
-            progs.append(program(items, al.dom, fam="C12:%s:%s%s" % (c, "+".join(sub), ":entities" if ent else "")))
+            progs.append(program(items, al.dom, fam="C12:%s:%s%s" % (c, "+".join(sub), ":entities" if ent else (":whitespace" if ws else ""))))
     return progs
 
 
